@@ -302,6 +302,31 @@ class Walker:
                     env2 = dict(env)
                     env2[dest] = ("disc2", role, {"is_none": 0, "is_some": 1, "is_ok": 0, "is_err": 1}[nm])
                     name = nm
+            if name is None and t.get("dest_ty") == "bool" and len(t["args"]) == 2 and callee_def(t).endswith(("RangeInclusive::<Idx>::contains", "Range::<Idx>::contains")):
+                # (a..=b).contains(&x)  ==  a <= x && x <= b      ((a..b): x < b) - the range built right here by RangeInclusive::new / a Range aggregate
+                rp = op_place(t["args"][0])
+                lo = hi = None
+                for _ in range(4):
+                    ds = self.b.defs().get(rp["l"], []) if rp else []
+                    if len(ds) != 1:
+                        break
+                    kd, bi_, si_, node, pj = ds[0]
+                    if kd == "call" and callee_def(node).endswith("RangeInclusive::<Idx>::new") and len(node["args"]) == 2:
+                        lo, hi = node["args"]
+                        break
+                    if kd == "assign" and node["rv"]["k"] == "agg" and len(node["rv"].get("ops", [])) == 2 and "Range" in node["rv"].get("adt", ""):
+                        lo, hi = node["rv"]["ops"]
+                        break
+                    if kd == "assign" and node["rv"]["k"] in ("use", "ref"):
+                        rp = op_place(node["rv"]["op"]) if node["rv"]["k"] == "use" else node["rv"]["pl"]
+                        continue
+                    break
+                if lo is not None:
+                    incl = "Inclusive" in callee_def(t)
+                    x = t["args"][1]
+                    env2 = dict(env)
+                    env2[dest] = ("and", self.cmp_atom("<=", lo, x), self.cmp_atom("<=" if incl else "<", x, hi))
+                    name = "range-contains"
             if name is None and self.summarise_predicates and t.get("dest_ty") == "bool" and t["args"]:
                 tgs = [x for x in self.f.call_targets(self.b, t) if x in self.f.bodies]
                 summ = disc_summary(self.f, tgs[0]) if len(tgs) == 1 else None
